@@ -704,4 +704,112 @@ def mutants():
         fam.FamilyEstimatedBreedingValueSelectionProblemMixin.__dict__["familyid"]
     add("family_index_assumes_grouped_ids", fam.FamilyEstimatedBreedingValueSelectionProblemMixin, "familyid",
         property(fam_prop.fget, fam_runlength))
+    # ---- round 4: state shared between objects / channels, lazily cached derived state, in-place normalisation -----
+    shared_kwargs = {}
+
+    def _kw_prop(role):
+        oldp = sp.SelectionProblem.__dict__[role + "_trans_kwargs"]
+
+        def setter(self, value):
+            oldp.fset(self, shared_kwargs if value is None else value)          # one module-level dict for every None
+        return property(oldp.fget, setter)
+
+    @contextlib.contextmanager
+    def shared_none_kwargs():
+        shared_kwargs.clear()
+        with contextlib.ExitStack() as st:
+            for role in ("obj", "ineqcv", "eqcv"):
+                st.enter_context(_patch(sp.SelectionProblem, role + "_trans_kwargs", _kw_prop(role)))
+            yield
+    out.append(("selprob_none_kwargs_share_one_dict", shared_none_kwargs))
+
+    wt_cache = {}
+
+    def _wt_prop(role):
+        oldp = PR.Problem.__dict__[role + "_wt"]
+
+        def setter(self, value):
+            if value is None:
+                n = getattr(self, {"obj": "nobj", "ineqcv": "nineqcv", "eqcv": "neqcv"}[role])
+                value = wt_cache.setdefault(n, numpy.repeat(1.0, n))             # default weights cached by length
+            oldp.fset(self, value)
+        return property(oldp.fget, setter)
+
+    @contextlib.contextmanager
+    def cached_default_weights():
+        wt_cache.clear()
+        with contextlib.ExitStack() as st:
+            for role in ("obj", "ineqcv", "eqcv"):
+                st.enter_context(_patch(PR.Problem, role + "_wt", _wt_prop(role)))
+            yield
+    out.append(("problem_default_weights_cached_by_length", cached_default_weights))
+
+    mixin = mogs.MultiObjectiveGenomicSelectionProblemMixin
+    old_tf = mixin.__dict__["tfreq"]
+
+    def tfreq_lazy(self, value):
+        self._tfreq = value                                                      # masks built on first use, never invalidated
+        if not hasattr(self, "_tfreq_fix_minor"):
+            old_tf.fset(self, value)
+    add("mogs_target_masks_not_rebuilt_on_reassignment", mixin, "tfreq", property(old_tf.fget, tfreq_lazy))
+
+    def ebv_real_inplace(self, x, *a, **k):
+        xsum = x.sum()
+        xsum = xsum if abs(xsum) >= 1e-10 else 1.0
+        contrib = x.astype(float, copy=False)                                    # float64 input: the caller's own array
+        contrib *= (1.0 / xsum)
+        return -1.0 * contrib.dot(self._ebv)
+    add("ebv_real_normalises_caller_vector_in_place", ebv.EstimatedBreedingValueRealSelectionProblem, "latentfn",
+        ebv_real_inplace)
+    # factory hands the evaluation declaration on with two entries mixed up (one class, one factory method)
+    gi = gebv.GenomicEstimatedBreedingValueIntegerSelectionProblem
+    old_fgg = gi.__dict__["from_gmat_gpmod"].__func__
+
+    def gebv_int_from_gmat_gpmod(cls, *a, **kw):
+        kw["ineqcv_trans_kwargs"] = kw.get("obj_trans_kwargs")
+        return old_fgg(cls, *a, **kw)
+    add("gebv_integer_factory_mixes_up_trans_kwargs", gi, "from_gmat_gpmod", classmethod(gebv_int_from_gmat_gpmod))
+
+    # batch path of _evaluate (elementwise=False): repeated rows evaluated once, answers returned in sorted order
+    def evaluate_dedupe(self, x, out, *a, **k):
+        if x.ndim == 1:
+            vals = self.evalfn(x, *a, **k)
+            out.update({key: val for key, val in zip(["F", "G", "H"], vals) if len(val) > 0})
+            return
+        ux, inv = numpy.unique(x, axis=0, return_inverse=True)
+        uvals = [self.evalfn(v, *a, **k) for v in ux]
+        order = numpy.sort(numpy.ravel(inv)) if len(ux) < len(x) else numpy.ravel(inv)
+        vals = [uvals[i] for i in order]
+        for key, j in zip(["F", "G", "H"], range(3)):
+            arr = numpy.stack([e[j] for e in vals])
+            if arr.shape[1] > 0:
+                out[key] = arr
+    add("evaluate_batch_repeated_rows_answered_in_sorted_order", sp.SelectionProblem, "_evaluate", evaluate_dedupe)
+
+    def decn_sum_isclose(decnvec, latentvec, decnvec_sum=1.0, **kw):
+        tot = decnvec.sum(0, keepdims=True)
+        return numpy.where(numpy.isclose(tot, decnvec_sum), 0.0, numpy.absolute(tot - decnvec_sum))
+    add("trans_decnvec_sum_eq_isclose", trans, "trans_decnvec_sum_eq", decn_sum_isclose)
+
+    old_ot = sp.SelectionProblem.__dict__["obj_trans"]
+
+    def obj_trans_set(self, value):
+        if "_obj_trans" in self.__dict__:
+            return                                                               # re-declaration silently ignored
+        old_ot.fset(self, value)
+    add("selprob_obj_trans_redeclaration_ignored", sp.SelectionProblem, "obj_trans", property(old_ot.fget, obj_trans_set))
+
+    def ebv_bin_dtype_total(self, x, *a, **k):
+        xsum = x.sum(dtype=x.dtype)                                              # bool: True; int8: wraps above 127
+        xsum = xsum if abs(xsum) >= 1e-10 else 1.0
+        return -1.0 * ((1.0 / xsum) * x).dot(self._ebv)
+    add("ebv_binary_total_in_vector_dtype", ebv.EstimatedBreedingValueBinarySelectionProblem, "latentfn", ebv_bin_dtype_total)
+
+    def evalfn_round(self, x, *a, **k):
+        latent = self.latentfn(x, *a, **k)
+        obj = numpy.round(self.obj_wt * self.obj_trans(x, latent, **self.obj_trans_kwargs), 10)
+        ineqcv = self.ineqcv_wt * self.ineqcv_trans(x, latent, **self.ineqcv_trans_kwargs)
+        eqcv = self.eqcv_wt * self.eqcv_trans(x, latent, **self.eqcv_trans_kwargs)
+        return obj, ineqcv, eqcv
+    add("evalfn_objectives_rounded_to_10_decimals", sp.SelectionProblem, "evalfn", evalfn_round)
     return out
